@@ -14,6 +14,8 @@ ops (booleans 0/1):
   spbegin <oldOk> <newValid> <writeOk>  -> mid | ret:ErrInvalidPassWord
   spstep                                -> mid | ret:<result>
   spto p1|p4|ret                        -> at:<p1|p4> <flag> | ret:<result> <flag>
+  spobs <store-access class>            -> <flag>          (a reader at a store access made BY the running password change:
+                                                             a `read` while the call holds wallet.mtx; `not-enabled` if none runs)
   spto retp                             -> ret:<result> -      (run to the return; a caller that was waiting for wallet.mtx
                                                                  runs next, so the flag at the return itself is not observed)
 a label that is not enabled in the model answers `not-enabled` (state unchanged).
@@ -66,6 +68,13 @@ def stepLine (d : DState) (line : String) : DState × String :=
     match bool? m with
     | some m => ({ d with s := { memPw := m } }, "ok")
     | none => (d, "bad-op")
+  | ["spobs", _] =>
+    match d.s.sp with
+    | none => (d, "not-enabled")
+    | some _ =>
+      match step d.v d.s .read with
+      | some (_, o) => (d, showOut o)
+      | none => (d, "not-enabled")
   | ["spto", "retp"] =>
     match d.s.sp with
     | none => (d, "not-enabled")
